@@ -76,10 +76,27 @@ def parse (s : Str) : Option Float32 :=
   if lw == cs!"inf" || lw == cs!"infinity" then some (if neg then negInf else inf)
   else if lw == cs!"nan" then some nan
   else
-    match Num.parseF32 s with
-    | .num q =>
-      if q == 0 && neg then some negZero else some (ofRat q)
-    | _ => none
+    -- a huge exponent is decided without computing 10^e: the value is 0, or overflows / underflows
+    let (mant, ex) := Str.breakOn (fun c => c == 'e' || c == 'E') body
+    let hugeExp : Option Bool :=   -- some true = huge negative exponent
+      let big (ds : Str) : Bool := (ds.dropWhile (· == '0')).length > 4 && ds.all Str.isDigit
+      match ex with
+      | some (_, '-' :: ds) => if big ds then some true else none
+      | some (_, '+' :: ds) => if big ds then some false else none
+      | some (_, ds) => if big ds then some false else none
+      | none => none
+    match hugeExp with
+    | some negExp =>
+      match Num.parseF32 mant with
+      | .num q =>
+        if q == 0 || negExp then some (if neg then negZero else Float32.ofBits 0)
+        else some (if neg then negInf else inf)
+      | _ => none
+    | none =>
+      match Num.parseF32 s with
+      | .num q =>
+        if q == 0 && neg then some negZero else some (ofRat q)
+      | _ => none
 
 def isNeg (x : Float32) : Bool := x.toBits.toNat ≥ 2147483648
 
@@ -250,7 +267,13 @@ def evalAttrSeq (env : Env) : List Str → Pcg.Rng → List Str → Res (List St
     | .ok (s, r') => evalAttrSeq env vs r' (s :: acc)
     | .error e => .error e
 
-def handleExpr (op : Str) (args : List Str) : Option String :=
+/-- ops: `tokenize`, `eval_vars`, `eval_attr`, `eval_condition`, `eval_list`, `eval_attr_seq`,
+    `f32_parse`, `pcg`; each also under the name `expr_<op>` (which the harness uses, so that an
+    equally named op of another handler cannot shadow it) -/
+def handleExpr (op0 : Str) (args : List Str) : Option String :=
+  let op := match Str.stripPrefix cs!"expr_" op0 with
+    | some r => r
+    | none => op0
   if op == cs!"tokenize" then
     match args with
     | [s] => some (match tokenize f32Ops s with
